@@ -37,14 +37,25 @@ def _requested(kw: dict, rc: int) -> int:
 def check(case: dict):
     r, c, name, kw = case["r"], case["c"], case["gen"], case.get("kw", {})
     rc = r * c
-    m = call(f"C12:{name}", L.run_generator, case)
+    form = case.get("start_form")
+    if form and "start_coord" in kw:
+        # the start cell handed over in the caller's own container; an ndarray is reused by the caller afterwards (sweep over start cells)
+        from maze_dataset.generation.generators import GENERATORS_MAP
+
+        L.seed_globals(case["np_seed"], case["py_seed"])
+        mine = tuple(kw["start_coord"]) if form == "tuple" else np.array(kw["start_coord"])
+        m = call(f"C12:{name}", GENERATORS_MAP[name], np.array([r, c]), **{**kw, "start_coord": mine})
+        if form == "ndarray-reused":
+            mine += 1
+    else:
+        m = call(f"C12:{name}", L.run_generator, case)
     meta = m.generation_meta
     require(isinstance(meta, dict), f"C12:{name}:no-meta", f"generation_meta is {type(meta)}")
     g = L.g_of(m)
     a = M.adj(g)
     comps = M.components(a)
     fully = len(comps) == 1
-    labels = [name] + [f"kw:{k}" for k in kw]
+    labels = [name] + [f"kw:{k}" for k in kw] + ([f"start:{form}"] if form and "start_coord" in kw else [])
     flag = bool(meta.get("fully_connected", False))
     vc = meta.get("visited_cells", None)
     V = None
@@ -137,8 +148,11 @@ def _biased(draw, hi):
             kw["max_tree_depth"] = draw(st.integers(0, 2 * (r + c)))
         if draw(st.booleans()):
             kw["start_coord"] = draw(cell)
-    return {"gen": name, "r": r, "c": c, "kw": kw,
-            "np_seed": draw(st.integers(0, 2**32 - 1)), "py_seed": draw(st.integers(0, 2**32 - 1))}
+    out = {"gen": name, "r": r, "c": c, "kw": kw,
+           "np_seed": draw(st.integers(0, 2**32 - 1)), "py_seed": draw(st.integers(0, 2**32 - 1))}
+    if "start_coord" in kw:
+        out["start_form"] = draw(st.sampled_from([None, "tuple", "ndarray", "ndarray-reused"]))
+    return out
 
 
 def subs(tier: str):
